@@ -3,7 +3,7 @@
    `DefaultEngine.on_action_complete -> action_handler.on_action_complete -> RegularAction.complete`
    (script `actionComplete`, regenerated on every run).
 
-   Since repo patch 26 the state is set through `update_action_execution_state` (update_on_match with
+   Since repo fix fdb9cc00 the state is set through `update_action_execution_state` (update_on_match with
    the state read as expected value; no match -> ValueError "already completed", the transaction is
    rolled back); output and accepted are ORM assignments made after the compare-and-swap has won,
    i.e. under the row lock.  Before the patch state / output / accepted were unconditional ORM
